@@ -43,6 +43,9 @@ def classify_failed(name, desc):
         return "unsupported"
     if "recursion unwinding" in d:
         return "unwind"
+    if "lifting failed" in d:
+        # lib/lift.py did not find its anchor text in the current source: nothing of the real code was checked
+        return "unsupported"
     return "violation"
 
 
